@@ -41,6 +41,25 @@ def lit(v, fd):
     return sgn + d[:-fd] + "." + d[-fd:]
 
 
+def sign_strings(maxlen=3):
+    return [""] + ["".join(t) for n in range(1, maxlen + 1) for t in itertools.product("+-", repeat=n)]
+
+
+def sign_bounds(decimal):
+    """every string over {+,-} of length 0..3 before the digits, signs after / inside the digits, blanks after the sign"""
+    digs = ["5", "0", "17"] + (["1.5", "0.5"] if decimal else [])
+    out = []
+    for d in digs:
+        for sg in sign_strings():
+            out.append(sg + d)
+            if sg:
+                out.append(sg + " " + d)
+                out.append(d + sg)
+                out.append(sg[0] + " " + sg[1:] + d)
+        out += [d[0] + "-" + d[1:] + "1", d[0] + "+" + d[1:] + "1"]
+    return sorted(set(out))
+
+
 def gen(tier, seed):
     rnd = random.Random(seed)
     cases = []
@@ -110,6 +129,17 @@ def gen(tier, seed):
     for pn in ("uint8", "two", "none"):
         for t in bad:
             add(rng(INT_PARENTS[pn]), t)
+    # malformed sign combinations on a bound: only a single leading sign is a number
+    for b in sign_bounds(False):
+        cases.append("parseint %s" % hexs(b))
+        for pn in ("int8", "uint64", "none"):
+            for form in ("%s", "%s..10", "min..%s" if pn != "none" else "0..%s", "1..5|%s", " %s ..20"):
+                add(rng(INT_PARENTS[pn]), form % b)
+    for b in sign_bounds(True):
+        for fd in (1, 2, 18):
+            cases.append("parsedec %s %d" % (hexs(b), fd))
+            for form in ("%s", "%s..8", "min..%s", "-1.5..0|%s"):
+                add(rng([(-P63, P63 - 1)], fd), form % b, 1, fd)
     # Number.Less / Equal on (x, -x) and (-x, x) at equal precision (Type.resolve skips a restriction that is Equal to its parent)
     for fd in (0, 1, 2, 9, 17, 18):
         for v in (0, 1, 5, 100, 127, 150, 10 ** fd, P63 - 1, P63, P64 - 1):
@@ -490,9 +520,25 @@ def fixed_symmetric():
     return out
 
 
+def fixed_signs():
+    """a bound with a malformed sign combination in a restriction of a module: rejected unless it is one leading sign"""
+    out = []
+    for kind, fd, whole, forms in (("int8", 0, "-100..100", ("%s", "%s..20", "min..%s")), ("int64", 0, None, ("%s..20", "-30|%s")),
+                                   ("string", 0, "0..100", ("%s", "%s..20")), ("uint16", 0, None, ("%s..20",)),
+                                   ("decimal64", 2, "-100..100", ("%s", "%s..20", "min..%s")), ("decimal64", 18, None, ("%s..8",))):
+        for b in sign_bounds(kind == "decimal64"):
+            if " " in b and len(b) > 4:
+                continue
+            for form in forms:
+                nodes = [dict(name="whole", parent=kind, text=whole, leaf=False), dict(name="ok", parent="whole", text=None, leaf=True),
+                         dict(name="l", parent="whole", text=form % b, leaf=True)]
+                out.append(dict(name="f_sg%d" % len(out), kind=kind, fd=fd, nodes=nodes))
+    return out
+
+
 def run_modules(res, tier, seed):
     rnd = random.Random(seed * 7919 + 10)
-    mods = fixed_families() + fixed_symmetric() + [gen_family(rnd, i) for i in range(700 if tier == "quick" else 12000)]
+    mods = fixed_families() + fixed_symmetric() + fixed_signs() + [gen_family(rnd, i) for i in range(700 if tier == "quick" else 12000)]
     for i in range(250 if tier == "quick" else 4000):
         mods += gen_symmetric(rnd, i)
     evals = model_fold(mods)
